@@ -28,17 +28,12 @@ Theorem C06_exit_matches_json : forall cmd vs z,
 Proof. exact run_consistent. Qed.
 Print Assumptions C06_exit_matches_json.
 
-(* 2. Runs that cannot be performed exit 2 (every class, every command); an empty config file is not such a run
-      (for EVERY vector since af4580b: the guard `yaml.safe_load(f) or {}` is read from the source). *)
-Theorem C06_usage_exit_two : forall q cmd c,
-  q_group_missing_config_ignored q = false -> usage_outcome q cmd c = spec_outcome c.
+(* 2. Runs that cannot be performed exit 2: every class, every command, EVERY vector, the faithful one included (the guard
+      `yaml.safe_load(f) or {}` (af4580b) and the existence check of the group-level --config (d92455c) are read from the
+      source); an empty config file is not such a run. *)
+Theorem C06_usage_exit_two : forall q cmd c, usage_outcome q cmd c = spec_outcome c.
 Proof. exact usage_exit_two. Qed.
 Print Assumptions C06_usage_exit_two.
-
-Theorem C06_usage_exit_two_partial : forall q cmd c,
-  c <> UGroupMissingConfig -> usage_outcome q cmd c = spec_outcome c.
-Proof. exact usage_exit_two_partial. Qed.
-Print Assumptions C06_usage_exit_two_partial.
 
 (* 3. JSON: decoding the document gives back every violation (strings as the sanitiser shows them), in order,
       and `total` is their number. *)
@@ -141,7 +136,7 @@ Example C06_nonvacuous :
   /\ sarif_rule_ids (render_sarif output_actual "0" ex_vs) = Some ["nesting.excessive-depth"; "dry.duplicate-code"].
 Proof. vm_compute. repeat split; reflexivity. Qed.
 
-(* regressions: the witnesses of the three repaired findings (kept in corpus/C06) now meet the specification under the claimed vector *)
+(* regressions: the witnesses of the four repaired findings (kept in corpus/C06) now meet the specification under the claimed vector *)
 Definition w_surrogate : list viol :=
   [Build_viol "file-placement" (String (ascii_of_nat 99) (String (ascii_of_nat 97) (String (ascii_of_nat 102) (String (ascii_of_nat 233) ".txt")))) 1 0 "not here"].
 Example C06_sarif_unsanitized_fixed :
@@ -154,3 +149,8 @@ Proof. vm_compute. reflexivity. Qed.
 
 Example C06_dry_empty_config_fixed : usage_outcome output_actual "dry" UEmptyConfig = spec_outcome UEmptyConfig.
 Proof. vm_compute. reflexivity. Qed.
+
+Example C06_group_missing_config_fixed :
+  usage_outcome output_actual "nesting" UGroupMissingConfig = spec_outcome UGroupMissingConfig
+  /\ usage_outcome output_actual "dry" UGroupMissingConfig = spec_outcome UGroupMissingConfig.
+Proof. vm_compute. split; reflexivity. Qed.
